@@ -152,6 +152,7 @@ def run_case(case, ctx):
     # event was created with (not what it reports)
     key = {k: ((e.time if type(e.time) in (int, float) else float(e.time)), -case["events"][k][1], k) for k, e in enumerate(evs)}
     idx = {id(e): k for k, e in enumerate(evs)}
+    seq = [len(evs)]
     real = EventListHeap()
     model = set()
     hist = []
@@ -239,6 +240,21 @@ def run_case(case, ctx):
             real.clear()
             model.clear()
             hist.append(("clear",))
+            if case["fam"] == "rnd":
+                # events created after a clear live next to events created before it: ids keep growing, ties keep breaking
+                # by creation order
+                top = max(e.id for e in evs)
+                for k in range(1, len(evs), 2):
+                    t_, p_ = case["events"][k]
+                    evs[k] = classes[k % len(classes)](_mk_time(case["kind"], t_), tgt, "m", p_)
+                    seq[0] += 1
+                    key[k] = (key[k][0], key[k][1], seq[0])
+                    idx[id(evs[k])] = k
+                    ctx.count("events_created_after_a_clear")
+                    if evs[k].id <= top:
+                        bad("event-ids-not-unique-or-not-in-creation-order", opi, new_id=evs[k].id, largest_earlier_id=top)
+                        break
+                    top = evs[k].id
         # observations made after every operation
         cmp("size", opi, real.size(), len(model))
         cmp("is_empty", opi, real.is_empty(), len(model) == 0)
